@@ -690,6 +690,41 @@ def sc_c09(env, t, v, cfg):
             exp_src = V.replace_at(t, exp_src, path, V.expected(lt, nv))
         read_ok(env, t, src, exp_src, f"C09 write to the {'copy' if target_is_copy else 'original'} at {path}: original as expected")
         read_ok(env, t, cp, exp_cp, f"C09 write to the {'copy' if target_is_copy else 'original'} at {path}: copy as expected")
+    if where == "other" and t[0] != "uref":
+        # a SECOND copy of the (meanwhile modified) original into the same destination buffer: it is a copy of the
+        # original as it is now, and it shares nothing with the first copy (M10-C09: duplicates remembered per buffer)
+        try:
+            cp2 = cls(src if cfg.get("src") != "view" else cls._from_buffer(src._buffer, src._offset), _buffer=dst_buf)
+        except BaseException as ex:
+            if not isinstance(ex, Exception):
+                raise
+            env.check(False, f"C09 second copy-construction into the same buffer raised {type(ex).__name__}: {str(ex)[:80]}")
+            cp2 = None
+        if cp2 is not None:
+            read_ok(env, t, cp2, exp_src, "C09 second copy into the same buffer equals the original as it is now")
+            read_ok(env, t, cp, exp_cp, "C09 first copy unchanged by the second copy")
+            c2sz = own_size(t, cp2)
+            env.check(sor(env, sle(env, cp._offset + csz, cp2._offset), sle(env, cp2._offset + c2sz, cp._offset)), "C09 storage of the two copies is disjoint")
+            for path, rt, rv in ref_slots(t, v):
+                if rv is None:
+                    continue
+                b1, b2 = V.get_at(t, cp, path), V.get_at(t, cp2, path)
+                if b1 is None or b2 is None or not hasattr(b1, "_size") or not hasattr(b2, "_size"):
+                    continue
+                s1, s2 = own_size(("x",), b1), own_size(("x",), b2)
+                env.check(sor(env, sle(env, b1._offset + s1, b2._offset), sle(env, b2._offset + s2, b1._offset)) if (_is_true(s1 > 0) and _is_true(s2 > 0)) else True, f"C09 the two copies do not share a duplicated referent ({path})")
+            # a write through the second copy does not show through the first
+            if picks:
+                path, lt, x = picks[-1]
+                nv = fitting_value(lt, x, 3)
+                try:
+                    V.set_at(t, cp2, path, nv)
+                    read_ok(env, t, cp, exp_cp, f"C09 write to the second copy at {path}: first copy as expected")
+                    read_ok(env, t, cp2, V.replace_at(t, exp_src, path, V.expected(lt, nv)), f"C09 write to the second copy at {path}: second copy as expected")
+                except BaseException as ex:
+                    if not isinstance(ex, Exception):
+                        raise
+                    env.check(False, f"C09 write to the second copy at {path} raised {type(ex).__name__}: {str(ex)[:80]}")
     neighbours_intact(env, B, "by copying")
     env.reach()
 
